@@ -171,7 +171,7 @@ def extra_checks_inner(pid, tier):
                 if pid == "C14":
                     out += vxbounded.c14_front(tier)
                 if pid == "C07":
-                    out += vxbounded.c13_json_typerefs(tier) + vxbounded.c07_differential(tier) + vxbounded.c07_one_of(tier) + vxbounded.c07_order(tier)
+                    out += vxbounded.c13_json_typerefs(tier) + vxbounded.c07_differential(tier) + vxbounded.c07_one_of(tier) + vxbounded.c07_order(tier) + vxbounded.c07_roots(tier)
             except RuntimeError as e:
                 out.append({"obligation": pid + ".bounded", "status": "undecided", "bounded": True, "detail": str(e)})
             return out
